@@ -1,33 +1,216 @@
-(** C05: soundness of the grammar-level oracle [glue_ok] (Model/FactorizeCheck.v). *)
+(** C05, grammar level, part 2: what [factorize_hrg] / [factorize_fgg] (Model/Factorize.v) do
+    with the outputs of the [factorize_rule] calls ([fz_spec]): the label table of the new grammar
+    EXTENDS the old one (old labels keep their numbers, new ones are appended), the rules of the
+    new grammar are the rules returned by the calls (regrouped by left-hand side: a
+    permutation), the fresh left-hand sides have pairwise different names over the WHOLE grammar,
+    none of them the name of a label of the input grammar, and every left-hand side is in the
+    table. *)
 From Coq Require Import List Arith Bool PeanoNat Lia Permutation.
 Import ListNotations.
 Require Import Fggs.Model.Conj Fggs.Proofs.ConjBase Fggs.Proofs.ConjNames.
-Require Import Fggs.Model.TreeDec Fggs.Model.Factorize Fggs.Model.FactorizeCheck Fggs.Proofs.Fz_inline.
+Require Import Fggs.Model.TreeDec Fggs.Proofs.TreeDec_graph Fggs.Proofs.TreeDec_tdok Fggs.Model.Factorize
+               Fggs.Proofs.Fz_fresh Fggs.Proofs.Fz_rooted Fggs.Proofs.Fz_struct Fggs.Proofs.Fz_main
+               Fggs.Proofs.Fz_bridge Fggs.Proofs.Fz_final Fggs.Proofs.Fz_post.
 
-Lemma frule_eqb_eq a b : frule_eqb a b = true -> a = b.
+(** one call: (the rule, the fresh rules, the new rule for the original left-hand side) *)
+Definition call := (frule * list frule * frule)%type.
+Definition c_rule (x : call) : frule := fst (fst x).
+Definition c_front (x : call) : list frule := snd (fst x).
+Definition c_last (x : call) : frule := snd x.
+Definition seg (x : call) : list frule := c_front x ++ [c_last x].
+Definition all_fronts (cs : list call) : list frule := flat_map c_front cs.
+Definition lname (c : frule) : str := el_name (fr_lhs c).
+
+(** the call was made with a label set containing the labels of [g], on a valid decomposition *)
+Definition call_ok (g : fhrg) (x : call) : Prop :=
+  exists labels t ords ls, incl (fh_elabels g) labels /\ ftd_wfb t = true
+    /\ valid_td (primal (c_rule x)) (td_of_ftd t)
+    /\ factorize_rule_model (c_rule x) labels t ords = Ok (seg x, ls).
+
+Definition lhs_in (h : fhrg) : Prop := forall c, In c (fh_all_rules h) -> In (fr_lhs c) (fh_elabels h).
+
+Record fz_spec (g g' : fhrg) (cs : list call) : Prop := {
+  fs_tbl : exists extra, fh_elabels g' = fh_elabels g ++ extra;
+  fs_start : fh_start g' = fh_start g;
+  fs_perm : Permutation (fh_all_rules g') (flat_map seg cs);
+  fs_rules : map c_rule cs = fh_all_rules g;
+  fs_calls : forall x, In x cs -> call_ok g x;
+  fs_nodup : NoDup (map lname (all_fronts cs));
+  fs_lhs_in : lhs_in g' }.
+
+(** * the label table only grows at its end *)
+Lemma add_elabel_ext tbl l tbl' : add_elabel tbl l = Ok tbl' -> (exists ex, tbl' = tbl ++ ex) /\ In l tbl'.
 Proof.
-  unfold frule_eqb. rewrite !andb_true_iff. intros [[[H1 H2] H3] H4].
-  apply elabel_eqb_eq in H1. apply list_eqb_eq in H4.
-  apply (leqb_eq pair_eqb pair_eqb_eq) in H2. apply (leqb_eq fedge_eqb fedge_eqb_eq) in H3.
-  destruct a, b; cbn in *. congruence.
+  unfold add_elabel. destruct (find _ tbl) as [x|] eqn:F.
+  - destruct (elabel_eqb x l) eqn:E; [|discriminate]. intros [= <-]. apply elabel_eqb_eq in E. subst x.
+    split; [exists []; now rewrite app_nil_r|]. apply find_some in F. tauto.
+  - intros [= <-]. split; [eexists; reflexivity|]. apply in_or_app. right. now left.
+Qed.
+Lemma mfold_add_elabel_ext ls : forall tbl tbl', mfold add_elabel ls tbl = Ok tbl' -> exists ex, tbl' = tbl ++ ex.
+Proof.
+  induction ls as [|l ls IH]; intros tbl tbl' H; cbn [mfold] in H.
+  - injection H as <-. exists []. now rewrite app_nil_r.
+  - destruct (add_elabel tbl l) as [t1|e] eqn:E; [|discriminate].
+    destruct (add_elabel_ext _ _ _ E) as [(ex1 & ->) _]. destruct (IH _ _ H) as (ex2 & ->).
+    exists (ex1 ++ ex2). now rewrite app_assoc.
 Qed.
 
-(** what the grammar-level oracle establishes about the IMPLEMENTATION's output: the new grammar
-    consists exactly of the rules the factorize_rule calls returned; the fresh left-hand sides
-    of ALL calls have pairwise different names, none of which is the name of a label of the
-    input grammar; in the whole new grammar each of them is the left-hand side of exactly one
-    rule and labels exactly one edge *)
-Theorem glue_ok_sound g outs gnew : glue_ok g outs gnew = true ->
-  Permutation (concat outs) (fh_all_rules gnew)
-  /\ NoDup (map el_name (flat_map fresh_of outs))
-  /\ forall l, In l (flat_map fresh_of outs) ->
-       ~ In (el_name l) (map el_name (fh_elabels g))
-       /\ rules_with_lhs l (fh_all_rules gnew) = 1
-       /\ count_label l (fh_all_rules gnew) = 1.
+Lemma rules_append_perm rs c :
+  Permutation (concat (map snd (rules_append rs c))) (concat (map snd rs) ++ [c]).
 Proof.
-  unfold glue_ok. rewrite !andb_true_iff, forallb_forall. intros [[H1 H2] H3]. split; [|split].
-  - apply (perm_b_sound frule_eqb); trivial. exact frule_eqb_eq.
-  - now apply snodup_NoDup.
-  - intros l Hl. specialize (H3 l Hl). rewrite !andb_true_iff, negb_true_iff, !Nat.eqb_eq in H3.
-    destruct H3 as [[H3 H4] H5]. split; [now apply smem_false|auto].
+  induction rs as [|p rs IH]; cbn [rules_append map concat snd app]; [apply Permutation_refl|].
+  destruct (elabel_eqb (fst p) (fr_lhs c)); cbn [map concat snd].
+  - rewrite <- !app_assoc. apply Permutation_app_head. apply Permutation_app_comm.
+  - rewrite <- app_assoc. now apply Permutation_app_head.
+Qed.
+
+Lemma hrg_add_rule_spec h c h' : hrg_add_rule h c = Ok h' ->
+  (exists ex, fh_elabels h' = fh_elabels h ++ ex) /\ fh_start h' = fh_start h
+  /\ Permutation (fh_all_rules h') (fh_all_rules h ++ [c]) /\ In (fr_lhs c) (fh_elabels h').
+Proof.
+  unfold hrg_add_rule. destruct (add_elabel (fh_elabels h) (fr_lhs c)) as [els|e] eqn:E1; [|discriminate]. cbn [bind].
+  destruct (mfold add_elabel (map fe_lab (fr_edges c)) els) as [els'|e] eqn:E2; [|discriminate]. cbn [bind].
+  intros [= <-]. cbn [fh_elabels fh_start fh_rules]. unfold fh_all_rules. cbn [fh_rules].
+  destruct (add_elabel_ext _ _ _ E1) as [(ex1 & ->) Hin]. destruct (mfold_add_elabel_ext _ _ _ E2) as (ex2 & ->).
+  split; [exists (ex1 ++ ex2); now rewrite app_assoc|]. split; [reflexivity|]. split; [apply rules_append_perm|].
+  apply in_or_app. now left.
+Qed.
+
+Lemma mfold_add_rule_spec cs : forall h h', mfold hrg_add_rule cs h = Ok h' ->
+  (exists ex, fh_elabels h' = fh_elabels h ++ ex) /\ fh_start h' = fh_start h
+  /\ Permutation (fh_all_rules h') (fh_all_rules h ++ cs) /\ (lhs_in h -> lhs_in h').
+Proof.
+  induction cs as [|c cs IH]; intros h h' H; cbn [mfold] in H.
+  - injection H as <-. split; [exists []; now rewrite app_nil_r|]. split; [reflexivity|].
+    split; [now rewrite app_nil_r|auto].
+  - destruct (hrg_add_rule h c) as [h1|e] eqn:E; [|discriminate].
+    destruct (hrg_add_rule_spec _ _ _ E) as ((ex1 & T1) & S1 & P1 & I1).
+    destruct (IH _ _ H) as ((ex2 & T2) & S2 & P2 & I2).
+    split; [exists (ex1 ++ ex2); now rewrite T2, T1, app_assoc|]. split; [congruence|]. split.
+    + eapply perm_trans; [exact P2|]. eapply perm_trans; [apply Permutation_app_tail; exact P1|].
+      rewrite <- app_assoc. reflexivity.
+    + intro L. apply I2. intros d Hd. eapply Permutation_in in Hd; [|exact P1]. apply in_app_or in Hd.
+      destruct Hd as [Hd|[<-|[]]]; [|exact I1]. rewrite T1. apply in_or_app. left. now apply L.
+Qed.
+
+(** * the loop of [factorize_hrg] *)
+Lemma flat_map_snoc {A B} (f : A -> list B) l x : flat_map f (l ++ [x]) = flat_map f l ++ f x.
+Proof. rewrite flat_map_app. cbn [flat_map]. now rewrite app_nil_r. Qed.
+
+Record inv (g gn : fhrg) (L : list elabel) (done : list call) : Prop := {
+  iv_tbl : exists extra, fh_elabels gn = fh_elabels g ++ extra;
+  iv_start : fh_start gn = fh_start g;
+  iv_perm : Permutation (fh_all_rules gn) (flat_map seg done);
+  iv_L : incl (fh_elabels g) L;
+  iv_fresh_L : incl (map fr_lhs (all_fronts done)) L;
+  iv_nodup : NoDup (map lname (all_fronts done));
+  iv_lhs_in : lhs_in gn;
+  iv_calls : forall x, In x done -> call_ok g x }.
+
+Lemma hrg_loop_spec g (ps : list (frule * rule_oracle)) : forall gn L done x,
+  (forall p, In p ps -> wf_rule (fst p) /\ ftd_wfb (fst (snd p)) = true
+                        /\ valid_td (primal (fst p)) (td_of_ftd (fst (snd p)))) ->
+  inv g gn L done ->
+  mfold (fun (acc : fhrg * list elabel) (p : frule * rule_oracle) =>
+           y <- factorize_rule_model (fst p) (snd acc) (fst (snd p)) (snd (snd p)) ;;
+           gn <- mfold hrg_add_rule (fst y) (fst acc) ;;
+           Ok (gn, snd y)) ps (gn, L) = Ok x ->
+  exists done', inv g (fst x) (snd x) (done ++ done') /\ map c_rule done' = map fst ps.
+Proof.
+  induction ps as [|p ps IH]; intros gn L done x HP I H; cbn [mfold] in H.
+  - injection H as <-. exists []. rewrite app_nil_r. split; [exact I|reflexivity].
+  - cbn [fst snd] in H.
+    destruct (factorize_rule_model (fst p) L (fst (snd p)) (snd (snd p))) as [[rs ls]|e] eqn:E1; [|discriminate]. cbn [bind fst snd] in H.
+    destruct (mfold hrg_add_rule rs gn) as [gn'|e] eqn:E2; [|discriminate]. cbn [bind] in H.
+    destruct (HP p (or_introl eq_refl)) as (W & WF & V).
+    destruct (edges_once_final _ _ _ _ _ _ W WF V E1) as (front & last & -> & _).
+    pose proof (call_facts_model _ _ _ _ _ _ _ W WF V E1) as CF.
+    destruct (mfold_add_rule_spec _ _ _ E2) as ((ex2 & T2) & S2 & P2 & I2).
+    destruct I as [(ex1 & T1) S1 P1 L1 F1 N1 I1 C1].
+    assert (LL : incl L ls).
+    { intros l Hl. eapply Permutation_in; [apply Permutation_sym, (cf_labels _ _ _ _ _ CF)|].
+      apply in_or_app. right. unfold init_labels. apply in_or_app. right. now right. }
+    set (x0 := ((fst p, front, last) : call)).
+    assert (I' : inv g gn' ls (done ++ [x0])).
+    { constructor.
+      - exists (ex1 ++ ex2). now rewrite T2, T1, app_assoc.
+      - congruence.
+      - rewrite flat_map_snoc. eapply perm_trans; [exact P2|]. now apply Permutation_app_tail.
+      - eapply incl_tran; eauto.
+      - unfold all_fronts. rewrite flat_map_snoc, map_app. apply incl_app; [eapply incl_tran; eauto|].
+        intros l Hl. eapply Permutation_in; [apply Permutation_sym, (cf_labels _ _ _ _ _ CF)|].
+        apply in_or_app. now left.
+      - unfold all_fronts. rewrite flat_map_snoc, map_app. apply NoDup_app_intro'; [exact N1|apply CF|].
+        intros nmx H1 H2. apply in_map_iff in H2. destruct H2 as (c & <- & Hc).
+        apply (cf_new _ _ _ _ _ CF c Hc). unfold init_labels. rewrite map_app, in_app_iff. right. right.
+        apply in_map_iff in H1. destruct H1 as (d & Ed & Hd). unfold lname in Ed. rewrite <- Ed.
+        apply in_map. apply F1. now apply in_map.
+      - now apply I2.
+      - intros y Hy. apply in_app_or in Hy. destruct Hy as [Hy|[<-|[]]]; [now apply C1|].
+        exists L, (fst (snd p)), (snd (snd p)), ls. auto. }
+    destruct (IH gn' ls (done ++ [x0]) x (fun q Hq => HP q (or_intror Hq)) I' H) as (done' & ID & ED).
+    exists (x0 :: done'). rewrite <- app_assoc in ID. split; [exact ID|]. cbn [map]. now rewrite ED.
+Qed.
+
+Lemma combine_map_fst {A B} (l : list A) (l' : list B) : length l = length l' -> map fst (combine l l') = l.
+Proof.
+  revert l'. induction l as [|x l IH]; intros [|y l'] H; try discriminate; [reflexivity|].
+  cbn [combine map fst]. f_equal. apply IH. cbn in H. lia.
+Qed.
+
+(** the hypotheses on the oracle: one (well-formed, valid) decomposition per rule *)
+Definition orc_ok (g : fhrg) (orc : list rule_oracle) : Prop :=
+  Forall2 (fun r ro => ftd_wfb (fst ro) = true /\ valid_td (primal r) (td_of_ftd (fst ro))) (fh_all_rules g) orc.
+
+Lemma Forall2_combine {A B} (P : A -> B -> Prop) l l' : Forall2 P l l' -> forall p, In p (combine l l') -> P (fst p) (snd p).
+Proof. induction 1; intros p Hp; [destruct Hp|]. destruct Hp as [<-|Hp]; auto. Qed.
+Lemma Forall2_length' {A B} (P : A -> B -> Prop) l l' : Forall2 P l l' -> length l = length l'.
+Proof. induction 1; cbn; congruence. Qed.
+
+Theorem factorize_hrg_spec g orc g' :
+  (forall r, In r (fh_all_rules g) -> wf_rule r) -> orc_ok g orc ->
+  factorize_hrg_with g orc = Ok g' -> exists cs, fz_spec g g' cs.
+Proof.
+  intros W O H. unfold factorize_hrg_with, factorize_hrg_from in H.
+  destruct (mfold _ (combine (fh_all_rules g) orc) _) as [x|e] eqn:E; [|discriminate]. cbn [bind] in H. injection H as <-.
+  assert (HP : forall p, In p (combine (fh_all_rules g) orc) ->
+                 wf_rule (fst p) /\ ftd_wfb (fst (snd p)) = true /\ valid_td (primal (fst p)) (td_of_ftd (fst (snd p)))).
+  { intros [r ro] Hp. split; [apply W; eapply in_combine_l; exact Hp|]. exact (Forall2_combine _ _ _ O _ Hp). }
+  assert (I0 : inv g {| fh_nlabels := fh_nlabels g; fh_elabels := fh_elabels g; fh_start := fh_start g; fh_rules := [] |}
+                   (fh_elabels g) []).
+  { constructor; cbn.
+    - exists []. now rewrite app_nil_r.
+    - reflexivity.
+    - constructor.
+    - apply incl_refl.
+    - intros ? [].
+    - constructor.
+    - intros ? [].
+    - intros ? []. }
+  destruct (hrg_loop_spec g _ _ _ [] x HP I0 E) as (cs & I & EC).
+  cbn [app] in I. exists cs. destruct I as [T S P L F N LI C]. constructor; trivial.
+  rewrite EC. apply combine_map_fst. eapply Forall2_length'; exact O.
+Qed.
+
+(** [FGG.from_hrg] re-adds the rules to a grammar with the same tables: again an extension *)
+Theorem from_hrg_spec g h h' cs : fz_spec g h cs -> from_hrg_model h = Ok h' -> fz_spec g h' cs.
+Proof.
+  intros [(ex1 & T1) S1 P1 R1 C1 N1 L1] H. unfold from_hrg_model in H.
+  destruct (mfold_add_rule_spec _ _ _ H) as ((ex2 & T2) & S2 & P2 & I2). cbn [fh_elabels fh_start] in *.
+  unfold fh_all_rules at 2 in P2. cbn [fh_rules map concat app] in P2.
+  constructor; trivial.
+  - exists (ex1 ++ ex2). now rewrite T2, T1, app_assoc.
+  - congruence.
+  - eapply perm_trans; eauto.
+  - apply I2. intros c [].
+Qed.
+
+Theorem factorize_fgg_spec m g orc f :
+  (forall r, In r (fh_all_rules (ff_hrg g)) -> wf_rule r) -> orc_ok (ff_hrg g) (orc m) ->
+  factorize_fgg_model m g orc = Ok f -> exists cs, fz_spec (ff_hrg g) (ff_hrg f) cs.
+Proof.
+  intros W O H. unfold factorize_fgg_model, factorize_hrg_model in H.
+  destruct (factorize_hrg_with (ff_hrg g) (orc m)) as [h|e] eqn:E1; [|discriminate]. cbn [bind] in H.
+  destruct (from_hrg_model h) as [h'|e] eqn:E2; [|discriminate]. cbn [bind] in H. injection H as <-. cbn [ff_hrg].
+  destruct (factorize_hrg_spec _ _ _ W O E1) as (cs & SP). exists cs. eapply from_hrg_spec; eauto.
 Qed.
